@@ -780,7 +780,8 @@ theorem encodeUrl_family (e : Env) (sc h rp rf : Str) (vs : ValidScheme sc) (ph 
   rw [splitUrl_family e.o sc h rp rf vs ph h35 h63 hc1 hc2]
   simp only [bind, Except.bind, pure, Except.pure, hne, Bool.false_eq_true, ↓reduceIte, h58, h64, h91,
     Bool.or_self, encodeHost_plain e.o h false ph, Option.isNone_none, Bool.and_self,
-    List.isEmpty_cons, Bool.not_false, Bool.true_and, Bool.false_and, List.isEmpty_nil]
+    List.isEmpty_cons, Bool.not_false, Bool.true_and, Bool.false_and, List.isEmpty_nil,
+    ParseLemmas.rpartition_snd_snd_of_mem_false h64]
 
 /-! ## URL level with user / password -/
 
